@@ -100,6 +100,18 @@ type Result struct {
 	Other      *ServerObs `json:"other,omitempty"` // the (always valid) metadata service of node rows
 	Infra      string     `json:"infra,omitempty"`
 	ChainLen   int        `json:"chain_len"`
+	// rows with prior "concurrent": the node presents the row's chain to every second connection and a genuine one to the
+	// others while several goroutines connect through the same endpoint
+	Conc *ConcObs `json:"concurrent,omitempty"`
+}
+
+type ConcObs struct {
+	Dials           int   `json:"dials"`
+	RowPresented    int   `json:"row_chain_presented"`
+	RowHandshakes   int   `json:"row_chain_handshakes_completed"`
+	RowAppBytes     int64 `json:"row_chain_app_bytes"`
+	GenuineAccepted int   `json:"genuine_chain_handshakes_completed"`
+	ClientOK        int   `json:"client_side_connects_ok"`
 }
 
 // ------------------------------------------------------------------------------------ PKI
@@ -344,6 +356,10 @@ type observer struct {
 	clientDER []byte
 	wg        sync.WaitGroup
 	swap      func(tls.Certificate) // replaces the certificate the server presents from now on
+	// alternate: when set, every second connection is presented this certificate (kind "alt") instead of the current one
+	alternate func(tls.Certificate)
+	kinds     map[string]string // remote address -> "alt" | "main" (connections since alternate was set)
+	conc      ConcObs
 }
 
 func (o *observer) reset() {
@@ -401,10 +417,27 @@ func serverTLSConfig(cert tls.Certificate, ver string, o *observer) *tls.Config 
 		cfg = mk(c)
 		o.mu.Unlock()
 	}
+	var alt *tls.Config
+	nconn := 0
+	o.alternate = func(c tls.Certificate) {
+		o.mu.Lock()
+		alt = mk(c)
+		o.kinds = map[string]string{}
+		o.mu.Unlock()
+	}
 	outer := &tls.Config{GetConfigForClient: func(h *tls.ClientHelloInfo) (*tls.Config, error) {
 		o.hello(h.ServerName)
 		o.mu.Lock()
 		defer o.mu.Unlock()
+		if alt != nil {
+			nconn++
+			if nconn%2 == 0 {
+				o.kinds[h.Conn.RemoteAddr().String()] = "alt"
+				o.conc.RowPresented++
+				return alt, nil
+			}
+			o.kinds[h.Conn.RemoteAddr().String()] = "main"
+		}
 		return cfg, nil
 	}}
 	return outer
@@ -457,10 +490,22 @@ func (n *node) serve(c net.Conn) {
 		return
 	}
 	n.o.handshook(tc.ConnectionState())
+	n.o.mu.Lock()
+	kind := n.o.kinds[c.RemoteAddr().String()]
+	switch kind {
+	case "alt":
+		n.o.conc.RowHandshakes++
+	case "main":
+		n.o.conc.GenuineAccepted++
+	}
+	n.o.mu.Unlock()
 	var got int64
 	defer func() {
 		n.o.mu.Lock()
 		n.o.obs.AppBytes += atomic.LoadInt64(&got)
+		if kind == "alt" {
+			n.o.conc.RowAppBytes += atomic.LoadInt64(&got)
+		}
 		n.o.mu.Unlock()
 	}()
 	codec := frame.NewRawCodec()
@@ -658,10 +703,10 @@ func runRow(p *pki, row Row) (res Result) {
 	}
 	// warm rows: the node first presents a genuine chain (for a lookalike: the very chain it copies), is accepted once
 	// through every endpoint of the resolver, and only then presents the row's chain
-	warm := row.Prior == "warm" && row.Target != "metadata"
+	warm := (row.Prior == "warm" || row.Prior == "concurrent") && row.Target != "metadata"
 	firstCert := nodeCert
 	if warm {
-		if nodeChain.Signer == "lookalike" {
+		if nodeChain.Signer == "lookalike" && nodeChain.Validity == "current" && nodeChain.SAN == "bundleHost" {
 			p.mu.Lock()
 			firstCert = p.genuineOf[nodeCert.Leaf.SerialNumber.String()]
 			p.mu.Unlock()
@@ -817,6 +862,46 @@ func runRow(p *pki, row Row) (res Result) {
 		}
 		res.Endpoints = []string{ep.Key()}
 		if !warmUp([]proxycore.Endpoint{ep}) || !crossBoundary() {
+			break
+		}
+		if row.Prior == "concurrent" {
+			// the node goes back to the genuine chain for every other connection and presents the row's chain, padded with
+			// certificates that have nothing to do with it, to the rest; six goroutines connect through the one endpoint
+			padded := nodeCert
+			for k := 0; k < 6; k++ {
+				if junk, err := p.mint(caTemplate(fmt.Sprintf("junk-%d-%d", row.ID, k)), nil); err == nil {
+					padded.Certificate = append(padded.Certificate[:len(padded.Certificate):len(padded.Certificate)], junk.der)
+				}
+			}
+			nd.o.swap(firstCert)
+			nd.o.alternate(padded)
+			var cwg sync.WaitGroup
+			var okc int64
+			const workers, each = 6, 20
+			for w := 0; w < workers; w++ {
+				cwg.Add(1)
+				go func() {
+					defer cwg.Done()
+					for k := 0; k < each; k++ {
+						cl, err := proxycore.ConnectClient(ctx, ep, proxycore.ClientConnConfig{})
+						if err == nil {
+							atomic.AddInt64(&okc, 1)
+							hctx, hcancel := context.WithTimeout(ctx, 3*time.Second)
+							_, _ = cl.Handshake(hctx, primitive.ProtocolVersion4, nil)
+							hcancel()
+							_ = cl.Close()
+						}
+					}
+				}()
+			}
+			cwg.Wait()
+			time.Sleep(20 * time.Millisecond)
+			nd.o.wg.Wait()
+			nd.o.mu.Lock()
+			co := nd.o.conc
+			nd.o.mu.Unlock()
+			co.Dials, co.ClientOK = workers*each, int(okc)
+			res.Conc = &co
 			break
 		}
 		connect(ep, row.Draw%2 == 0) // odd draws: raw proxycore.Connect, even draws: ConnectClient
